@@ -160,6 +160,13 @@ theorem exec_refresh_weaker (ss : SState) (c : Call) (hc : ∀ a r, c ≠ .creat
   | commitTx => apply same <;> simp [SState.exec]
   | rollbackTx => apply same <;> simp [SState.exec]
   | newId => apply same <;> simp [SState.exec]
+  | createPAR _ => apply same <;> simp [SState.exec]
+  | getPAR _ => apply same <;> (simp only [SState.exec]; split <;> rfl)
+  | deletePAR _ => apply same <;> (simp only [SState.exec]; split <;> rfl)
+  | createDevice _ => apply same <;> simp [SState.exec]
+  | getDevice _ => apply same <;> (simp only [SState.exec]; (repeat' split) <;> rfl)
+  | invalidateDevice _ => apply same <;> (simp only [SState.exec]; (repeat' split) <;> rfl)
+  | authenticateUser _ _ => apply same <;> (simp only [SState.exec]; split <;> rfl)
 
 theorem exec_GInv_other (ss : SState) (c : Call) (h : GInv ss)
     (hc1 : ∀ r, c ≠ .createCode r) (hc2 : ∀ a r, c ≠ .createRefresh a r) : GInv (ss.exec c).1 := by
@@ -249,5 +256,12 @@ theorem exec_GInv (ss : SState) (c : Call) (h : GInv ss) (g : Guard ss c) : GInv
   | commitTx => exact exec_GInv_other ss _ h (by intro r h; cases h) (by intro a r h; cases h)
   | rollbackTx => exact exec_GInv_other ss _ h (by intro r h; cases h) (by intro a r h; cases h)
   | newId => exact exec_GInv_other ss _ h (by intro r h; cases h) (by intro a r h; cases h)
+  | createPAR _ => exact exec_GInv_other ss _ h (by intro r h; cases h) (by intro a r h; cases h)
+  | getPAR _ => exact exec_GInv_other ss _ h (by intro r h; cases h) (by intro a r h; cases h)
+  | deletePAR _ => exact exec_GInv_other ss _ h (by intro r h; cases h) (by intro a r h; cases h)
+  | createDevice _ => exact exec_GInv_other ss _ h (by intro r h; cases h) (by intro a r h; cases h)
+  | getDevice _ => exact exec_GInv_other ss _ h (by intro r h; cases h) (by intro a r h; cases h)
+  | invalidateDevice _ => exact exec_GInv_other ss _ h (by intro r h; cases h) (by intro a r h; cases h)
+  | authenticateUser _ _ => exact exec_GInv_other ss _ h (by intro r h; cases h) (by intro a r h; cases h)
 
 end Fosite.Model
